@@ -83,6 +83,9 @@ type Disk struct {
 	// FailOpen, if set, may return an error for an open of path (descriptor table full, disk
 	// full, permission lost); nothing is created in that case.
 	FailOpen func(path string, flag int) error
+	// OnOpen, if set, is told about every open (a harness may wake a task that wants to act
+	// while the opener is busy with the file); it cannot fail the open
+	OnOpen func(path string, flag int)
 	// FailRename, if set, may return an error for a rename (cross-device link, permission).
 	FailRename func(oldpath, newpath string) error
 	// OnStat is called at the start of every Stat of a path (an external actor may act right
@@ -452,6 +455,9 @@ func OpenFile(name string, flag int, perm FileMode) (*File, error) {
 		if err := d.FailOpen(p, flag); err != nil {
 			return nil, perr("open", name, err)
 		}
+	}
+	if d.OnOpen != nil {
+		d.OnOpen(p, flag)
 	}
 	n := d.lookup(p)
 	if n == nil {
